@@ -1636,6 +1636,10 @@ func (kmc *KeystoreManagerForPoC) ChangeRemark(accountID, newRemark string) erro
 		if err != nil {
 			return err
 		}
+		// only a committed change may become visible in memory
+		addrManager.mu.Lock()
+		addrManager.remark = newRemark
+		addrManager.mu.Unlock()
 		return nil
 	} else {
 		logging.CPrint(logging.ERROR, "account not exists",
